@@ -134,6 +134,19 @@ def rule_weight(ctx, repo):
             if recv in stripped_vars:
                 return 'stripped' if stripped_vars[recv] else 'bad-reconstruction'
         return None
+    # the preconditions the function asserts hold for every transaction with at least one input and one output
+    from ..rules import equiv as _eqw
+    for n in walk_no_nested(fi.node):
+        if isinstance(n, ast.Assert):
+            t_ = norm(n.test)
+            m_ = re.match(r'^len\(self\.(vin|vout)\)', t_)
+            if m_:
+                v_ = _eqw(t_, 'len(self.%s) > 0' % m_.group(1), domain={'len(self.%s)' % m_.group(1): (0, None)})
+                if v_ is True:
+                    r.ok('calc_weight:precondition:%s' % m_.group(1), common.site_of(fi, n), 'at least one')
+                elif v_ is False:
+                    r.violated('calc_weight:precondition:%s' % m_.group(1), common.site_of(fi, n), 'calc_weight asserts `%s`: a transaction with exactly one %s raises AssertionError instead of returning its weight'
+                               % (t_, 'input' if m_.group(1) == 'vin' else 'output'), sure=True)
     if not paths:
         r.undecided('calc_weight', fi.site, 'no returning path')
     for p in paths:
@@ -182,6 +195,27 @@ def rule_trees(ctx, repo):
     cm = repo.lookup_method(blk, 'calc_merkle_root')
     rets = [norm(n.value) for n in walk_no_nested(cm.node) if isinstance(n, ast.Return)]
     r.check(rets == ['self.build_merkle_tree_from_txs(self.vtx)[-1]'], 'root-is-last', cm.site, 'root = last node of the tree over all transactions', 'calc_merkle_root returns %s' % rets)
+    cw = repo.lookup_method(blk, 'calc_witness_merkle_root')
+    rets = [norm(n.value) for n in walk_no_nested(cw.node) if isinstance(n, ast.Return)]
+    if rets == ['self.build_witness_merkle_tree_from_txs(self.vtx)[-1]']:
+        r.ok('witness-root-is-last', cw.site, 'witness root = last node of the witness tree over all transactions')
+    elif len(rets) == 1 and re.match(r'^self\.build_witness_merkle_tree_from_txs\(self\.vtx\)\[-?\d+\]$', rets[0]):
+        r.violated('witness-root-is-last', cw.site, 'calc_witness_merkle_root returns `%s`: the root is the LAST node of the tree ([-1]); [-0] is the zeroed coinbase leaf, [-2] an inner node' % rets[0], sure=True)
+    elif not rets:
+        r.violated('witness-root-is-last', cw.site, 'calc_witness_merkle_root returns nothing', sure=True)
+    else:
+        r.undecided('witness-root-is-last', cw.site, 'calc_witness_merkle_root returns %s' % rets)
+    from ..rules import raising_guards as _rg15, equiv as _eq15
+    cg = [(g, n) for g, n in _rg15(cw.node, repo, cw.module, cw.cls)]
+    emp = [g for g, n in cg if 'vtx' in g]
+    if len(emp) == 1:
+        v_ = _eq15(emp[0], 'len(self.vtx) == 0', domain={'len(self.vtx)': (0, None)})
+        if v_ is True:
+            r.ok('witness-root:empty-block', cw.site, 'only an empty block is refused')
+        elif v_ is False:
+            r.violated('witness-root:empty-block', cw.site, 'calc_witness_merkle_root refuses when `%s`: every block WITH transactions is turned away (the confirmed test refuses the empty block only)' % emp[0], sure=True)
+        else:
+            r.undecided('witness-root:empty-block', cw.site, 'refusal `%s` not compared' % emp[0])
     w = repo.lookup_method(blk, 'build_witness_merkle_tree_from_txs')
     p = w.params[0]
     body = [s for s in w.node.body if not (isinstance(s, ast.Expr) and isinstance(s.value, ast.Constant))]
